@@ -2,7 +2,7 @@ ID = "C18"
 LEVEL = "model_checking"
 MIRSYM = "C18"
 BOUNDS = ("life cycles: call / refused subscribe / server-closed subscription / unsubscribe+ack / subscribe-future dropped then ack, alone and in pairs "
-          "(quick: 8 sequences, thorough: all 30 ordered pairs), request ids = any pairwise-different u64, every parse / channel outcome solver-chosen")
+          "(quick: 8 sequences, thorough: all 30 ordered pairs), request ids = any pairwise-different u64, every parse / channel outcome solver-chosen; abandoned-then-notified and lagging-then-notified subscriptions; refusals by non-id success answers")
 EXPLANATION = ("Symbolic execution of the rustc MIR of manager.rs and helpers.rs (insert_pending_*, process_single_response, process_subscription_close_response, "
                "build_unsubscribe_message, ...) from the empty table through complete life cycles, HashMap abstracted to an association list with solver-decided key "
                "equality; z3 decides whether any entry can remain, per residue role; residues are replayed with a real client over an in-memory transport.")
